@@ -12,6 +12,7 @@ import Driver.C09
 import Driver.C16
 import Driver.C15
 import Driver.Life
+import Driver.C11
 /-! nvdriver: line protocol. Each input line `<PROP> <tokens…>` is answered by exactly one line:
     `ok[ …]` | `diff …` (model and implementation disagree) | `specviol …` (the implementation's
     own answer violates the property predicate) | `bad-op`. -/
@@ -38,6 +39,7 @@ def dispatch (d : DS) (line : String) : DS × String :=
   | "C05" :: rest => let (s, o) := Driver.Chan.handle "C05" d.chan rest; ({ d with chan := s }, o)
   | "C06" :: rest => let (s, o) := Driver.Chan.handle "C06" d.chan rest; ({ d with chan := s }, o)
   | "C10" :: rest => let (s, o) := Driver.Chan.handle "C10" d.chan rest; ({ d with chan := s }, o)
+  | "C11" :: "rf" :: rest => (d, Driver.C11.handle ("rf" :: rest))
   | "C11" :: rest => let (s, o) := Driver.Chan.handle "C11" d.chan rest; ({ d with chan := s }, o)
   | "C18" :: rest => let (s, o) := Driver.Chan.handle "C18" d.chan rest; ({ d with chan := s }, o)
   | "C07" :: rest =>
